@@ -1,5 +1,5 @@
 PROP = dict(
-    drivers=[dict(cmd="drv-lb", family="lb")],
+    drivers=[dict(cmd="drv-lb", family="lb", netns=True)],
     rule="unit part (export VerifLB over fake event loops): round-robin k*N accepts for every N = 1..256 from a fresh "
          "counter and from a seeded random counter value, the counter around 2^64; least-connections on scripted count "
          "vectors (all equal, strictly decreasing/increasing, many ties, random, extreme int32, negative) for 32 sizes "
